@@ -73,25 +73,25 @@ Proof. intros H. unfold rstrip_spaces. rewrite rev_app_distr. cbn [rev app]. rew
 Lemma last_split {A} (l : list A) : l <> [] -> exists l' c, l = l' ++ [c].
 Proof. intros H. destruct (exists_last H) as [l' [c E]]. exists l', c. exact E. Qed.
 
-Lemma parse_single_g_eqne o v : eqne_op o = true -> plain_value v = true ->
-  parse_single_g false (string_of_list_ascii (lchars (op_text o) ++ v)) = Ok (mkA (string_of_list_ascii v) o false).
+Lemma parse_single_g_eqne x o v : eqne_op o = true -> plain_value v = true ->
+  parse_single_g x (string_of_list_ascii (lchars (op_text o) ++ v)) = Ok (mkA (string_of_list_ascii v) o x).
 Proof.
   intros Ho Hv. unfold parse_single_g, lchars. rewrite list_ascii_of_string_of_list_ascii.
   rewrite (basic_value_plain v Hv) || idtac.
   destruct o; try discriminate; cbn [op_text list_ascii_of_string app].
   - cbn [match_str_cmp]. change ((code "="%char =? 39)%N || (code "="%char =? 34)%N) with false. cbv iota.
     unfold match_basic. cbn [lchars list_ascii_of_string strip_prefix]. change (Ascii.eqb "!"%char "="%char) with false. cbv iota.
-    change (Ascii.eqb "="%char "="%char) with true. cbv iota. rewrite (basic_value_plain v Hv). reflexivity.
+    change (Ascii.eqb "="%char "="%char) with true. cbv iota. rewrite (basic_value_plain v Hv). destruct x; reflexivity.
   - cbn [match_str_cmp]. change ((code "!"%char =? 39)%N || (code "!"%char =? 34)%N) with false. cbv iota.
     unfold match_basic. cbn [lchars list_ascii_of_string strip_prefix]. change (Ascii.eqb "!"%char "!"%char) with true.
-    change (Ascii.eqb "="%char "="%char) with true. cbv iota. rewrite (basic_value_plain v Hv). reflexivity.
+    change (Ascii.eqb "="%char "="%char) with true. cbv iota. rewrite (basic_value_plain v Hv). destruct x; reflexivity.
 Qed.
 
 Lemma string_app_chars a l : string_of_list_ascii (list_ascii_of_string a ++ l) = (a ++ string_of_list_ascii l)%string.
 Proof. induction a as [|c a IH]; cbn; [reflexivity|]. rewrite IH. reflexivity. Qed.
 
-Theorem parse_g_eqne o v : eqne_op o = true -> plain_value v = true ->
-  parse_g false (op_text o ++ string_of_list_ascii v)%string = Ok (GS (SAtom (mkA (string_of_list_ascii v) o false))).
+Theorem parse_g_eqne x o v : eqne_op o = true -> plain_value v = true ->
+  parse_g x (op_text o ++ string_of_list_ascii v)%string = Ok (GS (SAtom (mkA (string_of_list_ascii v) o x))).
 Proof.
   intros Ho Hv. unfold parse_g.
   assert (Hne : v <> []) by (destruct v; [discriminate|discriminate]).
@@ -113,7 +113,7 @@ Proof.
     rewrite D. unfold l. rewrite Ev, app_assoc. apply rstrip_plain. exact Pc. }
   rewrite Strip, (split_re_whole "|"%char true l (Hl _ (or_introl eq_refl))). cbn [mapR].
   rewrite (split_re_whole ","%char false l (Hl _ (or_intror eq_refl))). unfold l.
-  rewrite (parse_single_g_eqne o v Ho Hv). reflexivity.
+  rewrite (parse_single_g_eqne x o v Ho Hv). reflexivity.
 Qed.
 
 Lemma code_lower c : code (lower c) = if is_upper c then (code c + 32)%N else code c.
@@ -174,18 +174,23 @@ Proof.
     cbn [String.length skipn]. rewrite D. exact (p1_value_plain (c :: v) Hv).
 Qed.
 
-Theorem mk_leaf_eqne n o v : is_version_like n = false -> String.eqb n "extra" = false ->
+Theorem mk_leaf_eqne_any n o v : is_version_like n = false ->
   eqne_op o = true -> plain_value v = true ->
   mk_leaf n (op_text o ++ string_of_list_ascii v)%string false =
-  Ok (mkLeaf (alias n) (op_text o) (string_of_list_ascii v) false (CG (GS (SAtom (mkA (string_of_list_ascii v) o false))))).
+  Ok (mkLeaf (alias n) (op_text o) (string_of_list_ascii v) false (CG (GS (SAtom (mkA (string_of_list_ascii v) o (String.eqb n "extra")))))).
 Proof.
-  intros Hn He Ho Hv. unfold mk_leaf. cbn [andb].
+  intros Hn Ho Hv. unfold mk_leaf. cbn [andb].
   assert (El : lchars (op_text o ++ string_of_list_ascii v)%string = lchars (op_text o) ++ v).
   { unfold lchars. rewrite <- string_app_chars, list_ascii_of_string_of_list_ascii. reflexivity. }
   rewrite El, (p1_try_eqne o v Ho Hv).
   assert (Eo : string_of_list_ascii (lchars (op_text o)) = op_text o) by (unfold lchars; apply string_of_list_ascii_of_string).
-  rewrite Eo, Hn, He.
+  rewrite Eo, Hn.
   assert (In1 : String.eqb (op_text o) "in" = false) by (destruct o; reflexivity).
   assert (In2 : String.eqb (op_text o) "not in" = false) by (destruct o; reflexivity).
-  rewrite In1, In2. cbn [orb]. rewrite (parse_g_eqne o v Ho Hv). reflexivity.
+  rewrite In1, In2. cbn [orb]. rewrite (parse_g_eqne (String.eqb n "extra") o v Ho Hv). reflexivity.
 Qed.
+Theorem mk_leaf_eqne n o v : is_version_like n = false -> String.eqb n "extra" = false ->
+  eqne_op o = true -> plain_value v = true ->
+  mk_leaf n (op_text o ++ string_of_list_ascii v)%string false =
+  Ok (mkLeaf (alias n) (op_text o) (string_of_list_ascii v) false (CG (GS (SAtom (mkA (string_of_list_ascii v) o false))))).
+Proof. intros Hn He Ho Hv. rewrite (mk_leaf_eqne_any n o v Hn Ho Hv), He. reflexivity. Qed.
